@@ -1,5 +1,6 @@
 import FlatccModel.Util
 import FlatccModel.Num
+import FlatccModel.ScanSwap
 /-! `fmodel`: executes the model's definitions on protocol lines (stdin → stdout, one result line per op line). -/
 open Flatcc Flatcc.Util
 
@@ -31,9 +32,75 @@ def numOp (args : List String) : String :=
       | _ => "bad-op"
   | _ => "bad-op"
 
+/-- items "k:p,k:p" → (key text, payload text) -/
+def parseItems (s : String) : Array (String × String) :=
+  if s == "_" then #[] else
+  (s.splitOn ",").toArray.map (fun it =>
+    match it.splitOn ":" with
+    | [k] => (k, "")
+    | k :: p :: _ => (k, p)
+    | [] => ("", ""))
+
+def showItems (xs : Array (String × String)) : String :=
+  if xs.isEmpty then "_" else
+  ",".intercalate (xs.toList.map (fun (k, p) => if p == "" then k else k ++ ":" ++ p))
+
+def isStrKind (k : String) : Bool := k == "str" || k == "nn"
+
+def sortOp (args : List String) : String :=
+  open Flatcc.Sort in
+  match args with
+  | ["sort", kind, items] =>
+    let xs := parseItems items
+    let sorted :=
+      if isStrKind kind then
+        let ys : Array (List Nat × String × String) := xs.map (fun (k, p) => (hexToBytes k, k, p))
+        let r := heapSort (fun a b => decide (stringNCmp a.1 b.1 < 0)) ys
+        r.map (fun (_, k, p) => (k, p))
+      else
+        let ys : Array (Int × String × String) := xs.map (fun (k, p) => (intArg k, k, p))
+        let r := heapSort (fun a b => scalarLt a.1 b.1) ys
+        r.map (fun (_, k, p) => (k, p))
+    showItems sorted ++ " frame=same verify=ok"
+  | [op, kind, items, b, e, key] =>
+    let xs := parseItems items
+    let len := xs.size
+    let bN := natArg b
+    let eN := if e == "end" then 18446744073709551615 else natArg e
+    let cmp : Nat → Int :=
+      if isStrKind kind then
+        let ks := xs.map (fun (k, _) => hexToBytes k)
+        let kb := hexToBytes key
+        if op == "findn" || op == "scann" || op == "rscann" then fun i => stringNCmp ks[i]! kb
+        else fun i => strcmp ks[i]! kb
+      else
+        let ks := xs.map (fun (k, _) => intArg k)
+        let kv := intArg key
+        fun i => scalarCmp ks[i]! kv
+    let r :=
+      if op == "find" || op == "findn" then find cmp len
+      else if op == "scan" || op == "scann" then scan cmp len bN eN
+      else if op == "rscan" || op == "rscann" then rscan cmp len bN eN
+      else if op == "scanall" then scan cmp len 0 len
+      else if op == "rscanall" then rscan cmp len 0 len
+      else none
+    match r with
+    | some i => toString i
+    | none => "nf"
+  | _ => "bad-op"
+
 def step (line : String) : String :=
   match line.trimAscii.toString.splitOn " " with
   | "num" :: args => numOp args
+  | "sort" :: args => sortOp ("sort" :: args)
+  | "find" :: args => sortOp ("find" :: args)
+  | "findn" :: args => sortOp ("findn" :: args)
+  | "scan" :: args => sortOp ("scan" :: args)
+  | "scann" :: args => sortOp ("scann" :: args)
+  | "rscan" :: args => sortOp ("rscan" :: args)
+  | "rscann" :: args => sortOp ("rscann" :: args)
+  | "scanall" :: args => sortOp ("scanall" :: args)
+  | "rscanall" :: args => sortOp ("rscanall" :: args)
   | _ => "bad-op"
 
 end Drv
